@@ -23,7 +23,8 @@ theorem lexV_container (o cl : Char) (to tc : Tok)
   rw [e, ho, hows, lex_body c hb _ (hdel rest), hws, hcl]
   simp
 
-theorem lexV_simple (hc : c.ok = true) {v : J} {s : Simple} (h : v.simple? = some s) (hw : WF v) :
+theorem lexV_simple (hc : c.ok = true) {sk : Bool} {v : J} {s : Simple} (h : v.simple? = some s)
+    (hw : WF sk v) :
     LexV c (simpleChunk c s).text (toks (norm v)) := by
   intro rest hr
   cases v with
@@ -54,13 +55,26 @@ theorem lexV_simple (hc : c.ok = true) {v : J} {s : Simple} (h : v.simple? = som
 
 theorem text_singleton (ch : Chunk) : text [some ch] = ch.text := by simp
 
-theorem lexV_entry {k : List Char} {val : List (Option Chunk)} {ts : List Tok}
-    (hk : k.all strOk = true) (hv : LexV c (text val) ts) :
-    LexV c (text (entryChunks k val)) (.str k :: .colon :: ts) := by
+/-- the text of a key is read as the key's token (what follows is the colon) -/
+theorem lex_key (hc : c.ok = true) {k : Key} (hk : keyOk c.strKeys k = true) (rest : List Char) :
+    lexGo c .idle (keyText k ++ (':' :: rest)) = addT [keyTok k] (lexGo c .idle (':' :: rest)) := by
+  have hd : Delim (':' :: rest) := Delim_cons (by decide)
+  cases k with
+  | str s => simp only [keyOk] at hk; simp only [keyText, keyTok]; exact lex_quoted c s _ hk
+  | int n => simp only [keyText, keyTok]; exact lex_int c n _ hd
+  | kw k =>
+    have hs : c.strKeys = false := by simpa [keyOk] using hk
+    simp only [keyText, keyTok]
+    rw [← lit_kwStr c hc hs k]
+    exact lex_kw c hc k _ hd
+
+theorem lexV_entry (hc : c.ok = true) {k : Key} {val : List (Option Chunk)} {ts : List Tok}
+    (hk : keyOk c.strKeys k = true) (hv : LexV c (text val) ts) :
+    LexV c (text (entryChunks k val)) (keyTok k :: .colon :: ts) := by
   intro rest hr
-  have e : text (entryChunks k val) ++ rest = quoted k ++ (':' :: ' ' :: (text val ++ rest)) := by
+  have e : text (entryChunks k val) ++ rest = keyText k ++ (':' :: ' ' :: (text val ++ rest)) := by
     simp [entryChunks, keyChunk]
-  rw [e, lex_quoted c k _ hk]
+  rw [e, lex_key c hc hk]
   simp [hv rest hr]
 
 theorem text_multiLine (L : Limits) (o cl : Char) (off : Nat) (subs : List (List (Option Chunk))) :
@@ -77,7 +91,7 @@ theorem delim_close (ws : List Char) (cl : Char) (hcl : isDelim cl = true)
   · exact Delim_cons (by decide)
 
 theorem lex_gen (hc : c.ok = true) (L : Limits) :
-    ∀ v, WF v → ∀ off, LexV c (text (gen c L v off)) (toks (norm v)) := by
+    ∀ v, WF c.strKeys v → ∀ off, LexV c (text (gen c L v off)) (toks (norm v)) := by
   intro v
   induction v using J.ind with
   | hs s =>
@@ -94,7 +108,7 @@ theorem lex_gen (hc : c.ok = true) (L : Limits) :
     simpa [gen] using lexV_simple c hc (v := .kw k) rfl hw
   | hl xs ih =>
     intro hw off
-    have hw' := (WFList_iff xs).mp (by simpa [WF] using hw)
+    have hw' := (WFList_iff _ xs).mp (by simpa [WF] using hw)
     have hx : ∀ x, x ∈ xs → ∀ off', LexV c (text (gen c L x off')) (toks (norm x)) :=
       fun x hx off' => ih x hx (hw' x hx) off'
     have htoks : toks (norm (.list xs)) =
@@ -150,10 +164,10 @@ theorem lex_gen (hc : c.ok = true) (L : Limits) :
           exact this
   | hd kvs ih =>
     intro hw off
-    have hw' := (WFEntries_iff kvs).mp (by simpa [WF] using hw)
+    have hw' := (WFEntries_iff _ kvs).mp (by simpa [WF] using hw)
     have hx : ∀ kv, kv ∈ kvs → ∀ off', LexV c (text (gen c L kv.2 off')) (toks (norm kv.2)) :=
       fun kv hkv off' => ih kv hkv (hw' kv hkv).2 off'
-    let g : List Char × J → List Tok := fun kv => .str kv.1 :: .colon :: toks (norm kv.2)
+    let g : Key × J → List Tok := fun kv => keyTok kv.1 :: .colon :: toks (norm kv.2)
     have htoks : toks (norm (.dict kvs)) =
         .lbrace :: (joinT true ((sortE kvs).map g) ++ [.rbrace]) := by
       simp only [norm, toks, normEntries_eq, toksEntries_eq]
@@ -161,7 +175,7 @@ theorem lex_gen (hc : c.ok = true) (L : Limits) :
       simp [List.map_map, Function.comp_def, g]
     have hentry : ∀ off' kv, kv ∈ sortE kvs →
         LexV c (text (entryChunks kv.1 (gen c L kv.2 off'))) (g kv) :=
-      fun off' kv hkv => lexV_entry c (hw' kv (mem_sortE.mp hkv)).1 (hx kv (mem_sortE.mp hkv) off')
+      fun off' kv hkv => lexV_entry c hc (hw' kv (mem_sortE.mp hkv)).1 (hx kv (mem_sortE.mp hkv) off')
     cases kvs with
     | nil => simpa [gen, renderDict] using lexV_simple c hc (v := .dict []) rfl hw
     | cons kv kvs' =>
@@ -174,7 +188,7 @@ theorem lex_gen (hc : c.ok = true) (L : Limits) :
         exact lexV_container c '{' '}' .lbrace .rbrace (lex_lbrace c) (lex_rbrace c)
           (isWsTxt_nil c)
           (body_multiBody c
-            (fun kv : List Char × J => entryChunks kv.1 (gen c L kv.2 (off + L.indent))) g _ _
+            (fun kv : Key × J => entryChunks kv.1 (gen c L kv.2 (off + L.indent))) g _ _
             (fun a ha => hentry _ a ha) true)
           (isWsTxt_nl_spaces c off) (delim_close _ _ (by decide) (Or.inr ⟨_, rfl⟩))
       simp only [gen, renderDict]
@@ -191,7 +205,7 @@ theorem lex_gen (hc : c.ok = true) (L : Limits) :
             rw [hss, sortE_map (fun kv => toSimple kv.2)]; simp [List.map_map, Function.comp_def]
           rw [e]
           have hb := body_sepItems c
-            (fun a : List Char × J => entryChunks a.1 [some (simpleChunk c (toSimple a.2))]) g
+            (fun a : Key × J => entryChunks a.1 [some (simpleChunk c (toSimple a.2))]) g
             (sortE (kv :: kvs'))
             (fun a ha => by
               have := hentry 0 a ha
